@@ -2,7 +2,9 @@
 Spec: spec/codec/FramedRead.tla (next_item transcribed; the environment scripts every poll_read) for three
 codecs (length-prefixed test codec, LinesCodec via LinesCodec.tla, BytesCodec).  TLC checks C13_Frames etc. on
 every (input, script) of the bounded domain and dumps the transition graph; an init-rooted path cover of every
-edge is replayed on the real Framed over a scripted AsyncRead.  Verdicts:
+edge is replayed on the real Framed over a scripted AsyncRead.  A fourth codec "lpe" is the test codec made
+stateful: its decode_eof yields one "end" frame on the EMPTY buffer, so end-of-stream frames that do not come
+from buffered bytes are covered (streams ending exactly on a frame boundary, the empty stream).  Verdicts:
   * VIOLATION only if the items observed on the real code contradict the property (TLC, FramedReadTrace in
     predicate mode: C13_Frames / C13_Prefix / C13_IoErrSurfaced / C13_NoPanic on the observed items);
   * a per-poll difference from the spec that keeps the property (strict mode rejects, predicate mode accepts)
@@ -16,10 +18,11 @@ import vlib
 
 MOD = "codec/FramedRead.tla"
 TMOD = "codec/FramedReadTrace.tla"
-CODECS = ["lp", "lines", "bytes"]
+CODECS = ["lp", "lpe", "lines", "bytes"]
 NEGS = {"NEG_C13_EofDecodes_lines.cfg": ["C13_Frames"], "NEG_C13_EofDecodes_lp.cfg": ["C13_Frames"],
         "NEG_C13_KeepBufOnPending_lp.cfg": ["C13_Frames", "C13_Prefix"],
-        "NEG_C13_SurfaceIoErr_lines.cfg": ["C13_IoErrSurfaced"]}
+        "NEG_C13_SurfaceIoErr_lines.cfg": ["C13_IoErrSurfaced"],
+        "NEG_C13_EofFastPath_lpe.cfg": ["C13_Frames"]}
 
 
 def signature(rec):
@@ -157,7 +160,7 @@ def run(ctx):
     ctx.cov["long_streams"] = {"runs": lsumm["runs"], "bytes": lsumm["bytes"], "items": lsumm["items"],
                                "polls": lsumm["steps"], "max_read": lsumm["max_read"], "failures": lsumm["mismatches"]}
     ctx.cov["exhaustive"] = True
-    ctx.cov["rule"] = ("schedules = init-rooted paths covering every edge of the TLC state graphs of FramedRead for the lp, lines "
+    ctx.cov["rule"] = ("schedules = init-rooted paths covering every edge of the TLC state graphs of FramedRead for the lp, lpe, lines "
                        "and bytes codecs (an edge = one poll_next with the read results it consumes: chunk of any length of "
                        "the rest, Pending, one I/O error, EOF; initial states = every input up to MaxLen); distinct by "
                        "construction; non-trivial = the stream has a frame and some poll needed >= 2 reads or met Pending / "
